@@ -3,9 +3,9 @@ from ..core import Script, Rng
 from ..stage import LineStage, replay_line
 from .common import *
 
-ARTEFACTS = ["G1-consts", "G2-rs-portable", "G3b-regions", "G3-arith", "G6-skeleton", "G8-chunkstate", "G9-update"]
-EXTRA_PROPS = [("B3.Props.C02T", "B3/Props/C02T.lean"), ("B3.Props.C01T", "B3/Props/C01T.lean"), ("B3.Props.CapT", "B3/Props/CapT.lean")]   # theorems about the code translated from the sources
-RULE = ("op histories of 1-40 ops over up to 4 registers: new(mode), upd/updw(size class), clone, fin, xof+fill, cnt, "
+ARTEFACTS = ["G1-consts", "G4-listings", "G2-rs-portable", "G3b-regions", "G3-arith", "G6-skeleton", "G8-chunkstate", "G9-update"]
+EXTRA_PROPS = [("B3.Props.Surface", "B3/Props/Surface.lean"), ("B3.Props.C10", "B3/Props/C10.lean"), ("B3.Props.C02T", "B3/Props/C02T.lean"), ("B3.Props.C01T", "B3/Props/C01T.lean"), ("B3.Props.CapT", "B3/Props/CapT.lean")]   # theorems about the code translated from the sources
+RULE = ("op histories of 1-40 ops over up to 4 registers: new(mode), upd/updw/updwv = write_vectored(size class), clone, clone_from into a hasher of another key or mode, fin, xof+fill, cnt, "
         "(updates through update, Write::write, update_reader over scripted readers incl. short reads, update_rayon, the scripted join) at a forced platform; an exhaustive grid prefix p in 0..17 chunks x batch in 1..40 chunks (shrink loop) plus partial-chunk "
         "prefixes; non-trivial = at least one update after another update or a clone; distinct = distinct script text")
 ASSUMPTIONS = ["update_rayon / update_mmap* / update_reader reduce to update (C08, C11)"]
@@ -31,8 +31,10 @@ def history(rng, plat, nops, big):
             how = rng.random()
             if how < 0.70:
                 ops.append(f"H upd {r} {pat(n, rng)}")
-            elif how < 0.78:
+            elif how < 0.75:
                 ops.append(f"H updw {r} {pat(n, rng)}")
+            elif how < 0.78:
+                ops.append(f"H updwv {r} {','.join(str(rng.choice([0, 1, 16, 64, 1000, 1024, 1025, 4096])) for _ in range(rng.randrange(1, 5)))} {pat(n, rng)}")
             elif how < 0.90:
                 # update_reader over a scripted reader: the same bytes as one event, as short reads, or in two pieces with an
                 # Interrupted in between
@@ -89,6 +91,7 @@ def stages(tier, seed, witness_search=False):
     big = 120 * 1024 if tier == "quick" else 300 * 1024
     for i in range(nhist):
         scripts.append(history(rng, PLATFORMS[i % 5], rng.randrange(1, 41 if tier != "quick" else 25), big))
+    scripts += [cross_mode_clone_script(rng, PLATFORMS[i % 5]) for i in range(40 if tier == "quick" else 600)]
     # large first updates through the multithreaded entry point, then more input (state after update_rayon must be update's)
     for n in ([200 * 1024, 1000000, 133 * 1024 + 1] if tier == "quick" else [200 * 1024, 1000000, 133 * 1024 + 1, 3 * 1024 * 1024 + 5, 2 ** 21]):
         for plat in ["avx512", "portable"]:
